@@ -56,11 +56,17 @@ ArgsOf(cls) ==
 RenderRows == {r \in Rows : r.cls \notin {"_RetryAfter", "RequestRedirect"}
                             /\ (Mini => r.cls \in {"HTTPException", "NotFound", "ImATeapot", "MethodNotAllowed", "RequestedRangeNotSatisfiable",
                                                   "Unauthorized", "ServiceUnavailable", "BadRequestKeyError"})}
-RenderCases ==
-  UNION {{[op |-> "render", cls |-> r.cls, name |-> r.name, cdesc |-> D_DEFAULT, via |-> vm[1], method |-> vm[2], desc |-> d,
-           resp |-> p, arg |-> a] : vm \in ViaMethod, d \in Descs, a \in ArgsOf(r.cls), p \in {0, 1}} : r \in RenderRows}
-RenderUniverse == {c \in RenderCases : (c.resp = 1 => (c.desc.k = "none" /\ c.arg = CHOOSE a \in ArgsOf(c.cls) : TRUE))
-                                       /\ (c.desc.k = "markup" /\ c.arg.k = "k_key" => ~c.arg.show)}
+\* a passed response= is tried once per class / way / method (description and class arguments do not matter then); Markup
+\* and show_exception together are left out (the f-string of the property turns the Markup into plain text)
+RowCases(r) ==
+  LET args == ArgsOf(r.cls)
+      first == CHOOSE a \in args : TRUE
+      mk(vm, d, a, p) == [op |-> "render", cls |-> r.cls, name |-> r.name, cdesc |-> D_DEFAULT, via |-> vm[1], method |-> vm[2],
+                          desc |-> d, resp |-> p, arg |-> a]
+  IN {mk(vm, d, a, 0) : vm \in ViaMethod, d \in Descs, a \in {x \in args : ~(x.k = "k_key" /\ x.show)}}
+     \cup {mk(vm, d, a, 0) : vm \in ViaMethod, d \in {x \in Descs : x.k # "markup"}, a \in {x \in args : x.k = "k_key" /\ x.show}}
+     \cup {mk(vm, [k |-> "none", v |-> <<>>], first, 1) : vm \in ViaMethod}
+RenderUniverse == UNION {RowCases(r) : r \in RenderRows}
 
 \* ---- redirects ---------------------------------------------------------------------------------------------------
 S_HTTP == <<104, 116, 116, 112>>
